@@ -113,7 +113,7 @@ impl Opts {
             max_depth,
             min_depth: 1,
             start_depth: 1,
-            wall_cap_s: if tier == "quick" { 120.0 } else { 3000.0 },
+            wall_cap_s: if tier == "quick" { 120.0 } else { 1500.0 },
             state_cap: 40_000_000,
             threads,
             level: "model_checking",
@@ -296,6 +296,7 @@ impl<'a, S: Scenario> Walker<'a, S> {
                 self.maybe_sample(path);
                 if Instant::now() > self.sh.deadline
                     || self.sh.states_now.load(Ordering::Relaxed) > self.sh.state_cap
+                    || rss_gb() > 40.0
                 {
                     self.sh.capped.store(true, Ordering::SeqCst);
                     self.sh.stop.store(true, Ordering::SeqCst);
@@ -394,6 +395,14 @@ fn run_item<S: Scenario>(
     bound: usize,
     cache: &mut HashMap<usize, (S::Ctx, S::M, crate::world::Snap)>,
 ) {
+    // host objects are never freed within one Env: rebuild the world after many calls
+    let stale = cache
+        .get(&item.cfg)
+        .map(|(ctx, _, _)| s.world(ctx).calls.get() > 400_000)
+        .unwrap_or(false);
+    if stale {
+        cache.remove(&item.cfg);
+    }
     if !cache.contains_key(&item.cfg) {
         let (ctx, m) = s.build(item.cfg);
         let snap = s.world(&ctx).snap();
@@ -841,6 +850,15 @@ pub fn run<S: Scenario>(s: &S, opts: &Opts) -> Outcome {
         t0.elapsed().as_secs_f64()
     );
     Outcome { exit_code }
+}
+
+/// resident set size of this process in GiB (memory cap inside the engine)
+pub fn rss_gb() -> f64 {
+    std::fs::read_to_string("/proc/self/statm")
+        .ok()
+        .and_then(|t| t.split_whitespace().nth(1).and_then(|x| x.parse::<f64>().ok()))
+        .map(|pages| pages * 4096.0 / (1u64 << 30) as f64)
+        .unwrap_or(0.0)
 }
 
 pub fn truncate(s: &str, n: usize) -> String {
